@@ -297,4 +297,5 @@ def explore(run, driver, budget):
 
 
 def replay(run, driver, payload):
-    explore(run, driver, "quick")
+    # the generators are driven by the seed and pass recorded in the replay file (set by main): the same pass is re-run
+    explore(run, driver, run.budget)
